@@ -65,7 +65,9 @@ theorem mono_runBody {k : SSt → Task → SSt × Option Nat} (hk : Mono k) (p :
 theorem mono_exec (p : SProg) : ∀ fuel, Mono (exec p fuel) := by
   intro fuel
   induction fuel with
-  | zero => intro st t _; rfl
+  | zero =>
+    intro st t h
+    cases t <;> simp only [exec] <;> first | rfl | (split <;> first | exact h | rfl)
   | succ fuel ih =>
     intro st t h
     cases t with
@@ -124,7 +126,18 @@ theorem done_runBody {k : SSt → Task → SSt × Option Nat} (hm : Mono k) (hd 
 theorem done_exec (p : SProg) : ∀ fuel, Done (exec p fuel) := by
   intro fuel
   induction fuel with
-  | zero => intro st t h; cases h
+  | zero =>
+    intro st t h
+    cases t <;> simp only [exec] at h ⊢
+    · cases h
+    · cases h
+    · split at h
+      · rename_i he
+        refine ⟨fun _ => ?_, ?_, ?_⟩
+        · rw [if_pos he]; simpa using he
+        · intro c hc; cases hc
+        · intro op hc; cases hc
+      · cases h
   | succ fuel ih =>
     have hm := mono_exec p fuel
     intro st t ho
